@@ -140,8 +140,7 @@ def monitor(case, obs):
     if not tr.ok: return 'no observations'
     g = case.grace
     acc = [(i, d) for i, d in tr.stmts.items() if d['outcome'] == 'accepted']
-    ordered = g > 0 and never_full(case) and all(d.get('commit_clock', d['ts']) <= d['ts'] + g for _, d in acc) \
-        and case.facts.get('be_refresh_after_clock') != 'false'
+    ordered = g > 0 and never_full(case) and all(d.get('commit_clock', d['ts']) <= d['ts'] + g for _, d in acc)
     for fi, f in sorted(tr.flushes.items()):
         p = f['ret']
         if p is None:
